@@ -68,6 +68,61 @@ def frame_at_evolutions(sc):
     return out
 
 
+def split_preserves_block(sc, truncating):
+    """D10 (two-site update): the evolved two-site block is split by a decomposition, and the two cores stored right after it multiply back to the block
+    (U diag(s) V -> X; with a rank cap / threshold: after undoing the truncation selectors).  A rescaled or otherwise altered factor (s / ||s||, a dropped
+    conjugation, factors of another decomposition) changes the state although the step is meant to be a pure re-factorisation.
+    Returns (violations, undecided)."""
+    from . import mx
+    evs = sc.ctx.events
+    bad, unknown = [], []
+    for n, e in enumerate(evs):
+        if e['kind'] != 'svd' or e.get('fn') is None or not e['fn'].name.endswith('update_core_tdvp2site'):
+            continue
+        stores = []
+        for x in evs[n + 1:]:
+            if x['kind'] == 'core-store':
+                stores.append(x)
+                if len(stores) == 2:
+                    break
+            elif x['kind'] in ('svd', 'expm_multiply'):
+                break
+        if len(stores) != 2 or stores[1]['slot'] != stores[0]['slot'] + 1 or stores[0]['tt'] is not stores[1]['tt']:
+            unknown.append('the two cores of the split are not stored right after the decomposition')
+            continue
+        got = l2rules.pair_mx(stores[0]['value'], stores[1]['value'])
+        want = mx.reg().get(e['uid'])
+        if got is None or want is None:
+            unknown.append('no matrix expression for the split')
+            continue
+        got = mx.untruncate(got) if truncating else mx.canon(got)
+        want = mx.canon(want)
+        if got is None:
+            unknown.append('truncated factors of an unregistered decomposition')
+        elif got != want:
+            new_atoms = {f[:2] for f in got if f[0] == 'src'} - {f[:2] for f in want if f[0] == 'src'}
+            # an unknown factor that is the singular values of THIS decomposition after an arithmetic operation (s / ||s||, 2 * s, s ** 2): the split is altered
+            anc = A.ancestors([stores[0]['value'], stores[1]['value']])
+            altered = False
+            for _k, key in new_atoms:
+                a_ = anc.get(key) if isinstance(key, int) else None
+                hops = 0
+                while isinstance(a_, Arr) and hops < 6 and not altered:
+                    ex_ = a_.tags.get('expr')
+                    if ex_ and ex_[0] in ('truediv', 'mul', 'pow', 'add', 'sub'):
+                        for o_ in ex_[1]:
+                            pv_ = o_.tags.get('prov') if isinstance(o_, Arr) else None
+                            if isinstance(pv_, dict) and pv_.get('svd') == e['uid'] and pv_.get('role') == 's':
+                                altered = True
+                    a_ = a_.parents[0] if a_.parents else None
+                    hops += 1
+            if altered:
+                bad.append(f'the singular values of the decomposition are changed by an arithmetic operation before they are stored: the cores multiply to  {mx.show(got)}  instead of the decomposed block')
+            else:
+                (unknown if new_atoms else bad).append(f'the cores stored after the decomposition multiply to  {mx.show(got)}  instead of the decomposed block  {mx.show(want)}')
+    return bad, unknown
+
+
 def normalisation_currency(res, nz=None):
     """with normalize > 0 every returned state k >= 1 is scaled by a norm that was computed during step k (from the state that step produced), not by one that an
     earlier state was already scaled with.  Returns (violations, undecided): lists of step numbers."""
@@ -136,6 +191,7 @@ def check(repo, tier):
     run.rule('D5', 'trajectory: initial value first (by identity), one distinct new object per step satisfying the class invariant; cores 1..d-1 orthonormal factors after a step')
     run.rule('D6', 'Krylov: Lanczos recurrences in normal form (conjugated bra in alpha, w - alpha v - beta v_prev, symmetric tridiagonal stores, sum_j c_j v_j)')
     run.rule('D8', 'normalize = p > 0: the factor applied to the state of step k is the reciprocal of the p-norm computed from the state produced by step k')
+    run.rule('D10', 'tdvp2site: the two cores stored after the decomposition of the evolved two-site block multiply back to that block (after undoing the truncation selectors)')
     run.rule('D9', 'tdvp1site: every local evolution acts in an isometric frame: when site(s) S are evolved, the cores left of S are left- and the cores right of S right-orthonormal factors '
              '(for an arbitrary initial state this requires an orthonormalisation before the first sweep); refuted only by cores whose expression is fully known')
     run.rule('D7', 'frame: operator and initial state not modified (Layer 1)')
@@ -192,6 +248,15 @@ def check(repo, tier):
                 seen_.add((where, cons))
                 run.add(Finding('C11', 'D9', where, cons, f'{scen}: {why_}', f_, ln, {'scenario': scen}))
             run.oblige('D9', (entry, scen, tuple(ch)), not fb)
+            # D10 the SVD split of the evolved two-site block is a re-factorisation
+            if which == 'tdvp2site':
+                sb, su = split_preserves_block(sc, bool(capped))
+                if su and not sb:
+                    raise AnalysisError(f'{scen}: undecided: ' + '; '.join(sorted(set(su))[:2]))
+                run.oblige('D10', (entry, scen, tuple(ch)), not sb)
+                if sb:
+                    fnu = repo.fn(f'{ODE}.__update_core_tdvp2site')
+                    run.add(Finding('C11', 'D10', fnu.where, 'split of the evolved two-site block', f'{scen}: ' + '; '.join(sorted(set(sb))[:2]), fnu.file, fnu.node.lineno))
             # D8 normalisation
             if nz:
                 nb, nu, nw = normalisation_currency(res, nz)
@@ -219,6 +284,11 @@ def check(repo, tier):
                 run.oblige('D4', (where, cons, 'form'), False)
                 run.add(Finding('C11', 'D4', where, cons, f'{scen}: {why}', f, ln))
             want = H * steps
+            if which == 'tdvp1site' and not bad and abs(bonds + (d - 1) * H * steps) > 1e-9:
+                # one-site scheme: every bond matrix is evolved backward by half a step in each half sweep, whatever its size (a 1 x 1 bond matrix carries a phase)
+                run.add(Finding('C11', 'D4', fn.where, 'backward evolution of the bond matrices', f'{pscen}: the {d - 1} bond matrices are evolved by a total time {bonds:g} per {steps} step(s) instead '
+                                f'of {-(d - 1) * H * steps:g} (a backward evolution is skipped on this path)', fn.file, fn.node.lineno))
+                run.oblige('D4', (entry, scen, tuple(ch), 'bond time'), False)
             wrong = {k: v for k, v in sites.items() if abs(v - want) > 1e-9}
             missing = [k for k in range(d) if k not in sites]
             good = not wrong and not missing and not bad
